@@ -13,7 +13,7 @@ use hickory_net::{BufDnsStreamHandle, DnsMultiplexer, NetError};
 use hickory_proto::op::{DnsRequest, DnsRequestOptions, Message, MessageType, OpCode, Query, SerialMessage};
 use hickory_proto::rr::{Name, RecordType};
 
-use super::udp::encode_dgram;
+use super::udp::{encode_dgram, encode_dgram_hdr};
 use super::vtime::{self, CountWaker, VTime};
 use crate::common::*;
 
@@ -283,13 +283,14 @@ impl MuxRun {
                     let ev = match c0 {
                         "r" => {
                             self.tag_ids.insert(tag, id.unwrap());
-                            FrameEv::Msg(encode_dgram(id.unwrap(), true, &[], tag))
+                            // flag bits and rcode vary with the tag: the multiplexer routes by id alone
+                            FrameEv::Msg(encode_dgram_hdr(id.unwrap(), true, &[], tag, Some(0x8000 | (tag.wrapping_mul(37) as u16 & 0x07bf))))
                         }
                         "q" => FrameEv::Msg(encode_dgram(id.unwrap(), false, &[], tag)),
                         "u" => {
                             let u = self.fresh_unknown_id();
                             self.tag_ids.insert(tag, u);
-                            FrameEv::Msg(encode_dgram(u, true, &[], tag))
+                            FrameEv::Msg(encode_dgram_hdr(u, true, &[], tag, Some(0x8000 | (tag.wrapping_mul(37) as u16 & 0x07bf))))
                         }
                         "g" => FrameEv::Msg(vec![0xde, 0xad, tag as u8]),
                         "e" => FrameEv::Err,
